@@ -38,15 +38,15 @@ theorem C15_pgn_59392 : agreesOnFields pair_59392 layout_59392 = true := by deci
 theorem C15_pgn_59904 : agreesOnFields pair_59904 layout_59904 = true := by decide +kernel
 theorem C15_pgn_60928 : agreesOnFields pair_60928 layout_60928 = true := by decide +kernel
 theorem C15_pgn_126996 : agreesOnFields pair_126996 layout_126996 = true := by decide +kernel
-/-- PGN 126993 Heartbeat, setter path for intervals up to `MaxHeartbeatInterval` (`pair_126993_e`): the interval is
+/-- PGN 126993 Heartbeat, setter path for intervals up to `MaxHeartbeatInterval` (`pair_126993_a`): the interval is
 written to the published 16 bits as `timeInterval_ms / 10`, i.e. with the published resolution of 10 ms per bit
 (side record ⟨offset 0, 2 bytes, unsigned, 10⟩ on the integer parameter), and the sequence counter follows. -/
-theorem C15_pgn_126993 : agreesOnFields pair_126993_e layout_126993 = true := by decide +kernel
-/-- … on the other path (interval above the limit, `pair_126993_t`) the interval field holds the published
+theorem C15_pgn_126993 : agreesOnFields pair_126993_a layout_126993 = true := by decide +kernel
+/-- … on the other path (interval above the limit, `pair_126993_b`) the interval field holds the published
 "out of range" code 0xfffe and the sequence counter is placed as published. -/
 theorem C15_pgn_126993_out_of_range :
-    (List.range 16).all (fun i => srcAt pair_126993_t.setter i == some (if i = 0 then .zero else .one)) = true ∧
-    agreesOnFields pair_126993_t (layout_126993.filter (·.name != "interval")) = true := by decide +kernel
+    (List.range 16).all (fun i => srcAt pair_126993_b.setter i == some (if i = 0 then .zero else .one)) = true ∧
+    agreesOnFields pair_126993_b (layout_126993.filter (·.name != "interval")) = true := by decide +kernel
 
 /-! data PGNs -/
 theorem C15_pgn_126992 : agreesOnFields pair_126992 layout_126992 = true := by decide +kernel
@@ -66,8 +66,8 @@ theorem C15_pgn_129026 : agreesOnFields pair_129026 layout_129026 = true := by d
 /-- PGN 129029: every field up to the reference-station count; the repeated reference-station record is written in
 a conditional of variable length, see the path variant below. -/
 theorem C15_pgn_129029 : agreesOnFields pair_129029 layout_129029 = true := by decide +kernel
-/-- … and on the path with reference stations (`pair_129029_t`) the whole message including the station record -/
-theorem C15_pgn_129029_t : agreesOnFields pair_129029_t (layout_129029 ++ layout_129029_t) = true := by decide +kernel
+/-- … and on the path with reference stations (`pair_129029_a`) the whole message including the station record -/
+theorem C15_pgn_129029_a : agreesOnFields pair_129029_a (layout_129029 ++ layout_129029_a) = true := by decide +kernel
 theorem C15_pgn_129033 : agreesOnFields pair_129033 layout_129033 = true := by decide +kernel
 theorem C15_pgn_129283 : agreesOnFields pair_129283 layout_129283 = true := by decide +kernel
 /-- PGN 129284 Navigation Data: every field except the ETA date is placed as published … -/
